@@ -4,11 +4,13 @@ from __future__ import annotations
 import ast
 import itertools
 
-from sa.astx import NotConst, call_attr, call_name, const_eval, src, walk_local
+import html
+
+from sa.astx import NotConst, call_attr, call_name, const_eval, module_consts, src, walk_local
 from sa.domains import escaper_problems, replace_chain
 from sa.selftest import Mutant, Silent
 from sa.source import AnalysisError
-from sa.props._lib_f import InterpError, call_sites, interpret, named_calls, param_names
+from sa.props._lib_f import InterpError, call_sites, interpret, module_patterns, named_calls, param_names
 
 PROPERTY = "C28"
 FL = "web/_flatten.py"
@@ -39,6 +41,9 @@ def _const(n):
 
 
 def check(ctx):
+    MODULE_ENV.clear()
+    MODULE_ENV.update(module_consts(ctx.mod(FL)))
+    MODULE_ENV.update(module_patterns(ctx.mod(FL)))
     with ctx.section("sinks"):
         _sinks(ctx)
     with ctx.section("recursion"):
@@ -244,10 +249,13 @@ def _attr_writer(ctx):
 
 
 # ---- (b) escapers ----------------------------------------------------------------------------------------
+MODULE_ENV: dict = {}      # module-level compiled patterns / constants of _flatten.py (filled by check())
+
+
 def _run(f, data, extra_funcs=None):
     funcs = {"isinstance": isinstance}
     funcs.update(extra_funcs or {})
-    kind, val = interpret(f, {param_names(f)[0]: data, "str": str, "bytes": bytes}, funcs=funcs)
+    kind, val = interpret(f, dict(MODULE_ENV, **{param_names(f)[0]: data, "str": str, "bytes": bytes}), funcs=funcs)
     if kind != "return":
         raise InterpError(f"{f.name} raised {val}")
     return val
@@ -294,8 +302,11 @@ def _escaper_structure(ctx):
 
 
 def _unescape(b):
-    out = b.replace(b"&lt;", b"<").replace(b"&gt;", b">").replace(b"&quot;", b'"').replace(b"&amp;", b"&")
-    return out
+    """what a parser makes of the escaped text: named AND numeric character references are decoded (html.unescape, HTML5 rules)"""
+    return html.unescape(b.decode("utf-8", "surrogateescape")).encode("utf-8", "surrogateescape")
+
+
+LOOKALIKES = ["&#34;", "&#x22;", "&quot;", "&amp;", "&lt;", "&#60;x&#62;", "a&#34; onload=&#34;x", "&#34", "&#038;", "&amp;quot;", "&#x3c;", "&#39;", "&apos;", "&gt", "&AMP;", "&#0;"]
 
 
 def _escaper_content(ctx):
@@ -304,7 +315,7 @@ def _escaper_content(ctx):
     bad = []
     n = 0
     try:
-        for s in _strings(["&", "<", ">", '"', "a", ";", "l", "t"], 4):
+        for s in list(_strings(["&", "<", ">", '"', "a", ";", "l", "t"], 4)) + LOOKALIKES:
             for data in (s, s.encode()):
                 n += 1
                 out = _run(efc, data)
@@ -329,11 +340,11 @@ def _escaper_attribute(ctx):
     bad = []
     n = 0
     try:
-        for s in _strings(["&", "<", ">", '"', "a", ";", "q"], 4):
+        for s in list(_strings(["&", "<", ">", '"', "a", ";", "q"], 4)) + LOOKALIKES:
             n += 1
             captured = []
             funcs = {"isinstance": isinstance, "write": lambda d: captured.append(d), "escapeForContent": lambda d: _run(efc, d)}
-            kind, val = interpret(w, {param_names(w)[0]: s.encode(), "str": str, "bytes": bytes}, funcs=funcs)
+            kind, val = interpret(w, dict(MODULE_ENV, **{param_names(w)[0]: s.encode(), "str": str, "bytes": bytes}), funcs=funcs)
             out = b"".join(captured) if all(isinstance(c, bytes) for c in captured) else None
             okay = kind == "return" and isinstance(out, bytes) and not (set(out) & set(b'<>"')) and _unescape(out) == s.encode()
             if not okay:
@@ -504,6 +515,8 @@ MUTANTS = [
     Mutant("flush-keeps-buffer", FL, "            write(b\"\".join(buf))\n            del buf[:]\n", "            write(b\"\".join(buf))\n"),
     Mutant("content-drops-gt", FL, "    data = data.replace(b\"&\", b\"&amp;\").replace(b\"<\", b\"&lt;\").replace(b\">\", b\"&gt;\")", "    data = data.replace(b\"&\", b\"&amp;\").replace(b\"<\", b\"&lt;\")"),
     Mutant("content-amp-last", FL, "    data = data.replace(b\"&\", b\"&amp;\").replace(b\"<\", b\"&lt;\").replace(b\">\", b\"&gt;\")", "    data = data.replace(b\"<\", b\"&lt;\").replace(b\">\", b\"&gt;\").replace(b\"&\", b\"&amp;\")"),
+    Mutant("attribute-keeps-numeric-references", FL, "        write(escapeForContent(data).replace(b'\"', b\"&quot;\"))",
+           "        data = data.replace(b\"&#\", b\"\\x00#\").replace(b\"&\", b\"&amp;\").replace(b\"\\x00#\", b\"&#\")\n        data = data.replace(b\"<\", b\"&lt;\").replace(b\">\", b\"&gt;\")\n        write(data.replace(b'\"', b\"&quot;\"))"),
     Mutant("attribute-quote-not-escaped", FL, "        write(escapeForContent(data).replace(b'\"', b\"&quot;\"))", "        write(escapeForContent(data))"),
     Mutant("attribute-quote-escaped-first", FL, "        write(escapeForContent(data).replace(b'\"', b\"&quot;\"))", "        write(escapeForContent(data.replace(b'\"', b\"&quot;\")))"),
     Mutant("text-written-raw-for-bytes", FL, "    if isinstance(root, (bytes, str)):\n        write(dataEscaper(root))", "    if isinstance(root, bytes):\n        write(root)\n    elif isinstance(root, str):\n        write(dataEscaper(root))"),
@@ -520,6 +533,8 @@ MUTANTS = [
     Mutant("comment-close-before-data", FL, "        write(b\"<!--\")\n        write(escapedComment(root.data))\n        write(b\"-->\")", "        write(b\"<!--\")\n        write(b\"-->\")\n        write(escapedComment(root.data))"),
 ]
 SILENT = [
+    Silent("content-escaper-by-regex-table", FL, "    data = data.replace(b\"&\", b\"&amp;\").replace(b\"<\", b\"&lt;\").replace(b\">\", b\"&gt;\")",
+           "    for old, new in ((b\"&\", b\"&amp;\"), (b\"<\", b\"&lt;\")):\n        data = new.join(data.split(old))\n    data = b\"&gt;\".join(data.split(b\">\"))"),
     Silent("large-chunk-flushes-first", FL, "        nonlocal bufSize\n        buf.append(bs)\n        bufSize += len(bs)\n", "        nonlocal bufSize\n        if len(bs) > BUFFER_SIZE:\n            flushBuffer()\n            write(bs)\n            return\n        buf.append(bs)\n        bufSize += len(bs)\n"),
     Silent("content-translate-loop", FL, "    data = data.replace(b\"&\", b\"&amp;\").replace(b\"<\", b\"&lt;\").replace(b\">\", b\"&gt;\")",
            "    for old, new in ((b\"&\", b\"&amp;\"), (b\"<\", b\"&lt;\"), (b\">\", b\"&gt;\")):\n        data = data.replace(old, new)"),
